@@ -122,11 +122,11 @@ def coq_path(p):
 
 
 def coq_par(par, dflt):
-    return "(par_of [%s] %d)" % ("; ".join("(%s, %d)" % (coq_path(p), n) for p, n in sorted(par.items())), dflt)
+    return "(par_of [%s] %d)%%nat" % ("; ".join("(%s, %d)" % (coq_path(p), n) for p, n in sorted(par.items())), dflt)
 
 
 def coq_wn(wn):
-    return "(wn_of [%s])" % "; ".join(coq_path(p) for p in sorted(wn))
+    return "(wn_of [%s])%%nat" % "; ".join(coq_path(p) for p in sorted(wn))
 
 
 def coq_render(t, par, dflt, wn):
@@ -155,21 +155,45 @@ def need_r(o):
     return SPEC_LEVEL[o] if o in RIGHT_ASSOC else SPEC_LEVEL[o] + 1
 
 
-class Tok:
-    """kinds: term (atom text), open/close (parentheses of a nested expression), infix, infixw (word),
-    prefix (symbol, nothing may follow but the operand), prefixw (`not`), postfix (glued to the left),
-    raw (verbatim text, spacing inside already fixed)"""
-    __slots__ = ("kind", "text")
+class Gap:
+    """A place where the grammar admits optional layout.  kind:
+       none  nothing may stand here
+       opt   (WHITESPACE | NEWLINE)*      (NEWLINE may carry an inline comment)
+       req   (WHITESPACE | NEWLINE)+
+       ws1   WHITESPACE+                  ws0   WHITESPACE*
+       nl0   NEWLINE*   (no blanks: access brackets inside the atomic expression)
+       lst   (comment (WS|nl)+ | WS | nl)*      after "[" "{" "," of lists / records
+       lend  the same before the closing bracket, optionally with a trailing comma
+       wsn1  (WHITESPACE | plain_newline)+      after `do`
+       sep   do-block statement separator: WS* (nl+ | ";") then comment lines / blanks
+       cend  before ")" of a call / parameter list: optional `,` NEWLINE, then NEWLINE* and blanks"""
+    __slots__ = ("kind", "canon")
 
-    def __init__(self, kind, text):
+    def __init__(self, kind, canon):
         self.kind = kind
-        self.text = text
+        self.canon = canon
+
+
+FILL = {
+    "none": [""],
+    "opt": ["", " ", "  ", "\t", "\n", " \n  ", " // note\n", "\n\n", " //\n "],
+    "req": [" ", "  ", "\t", "\n", " \n  ", " // note\n", "\n\n"],
+    "ws1": [" ", "  ", "\t", " \t "],
+    "ws0": ["", " ", "  ", "\t"],
+    "nl0": ["", "\n", "\n\n", "// note\n"],
+    "lst": ["", " ", "\n", "\n  ", " // item note\n  ", "\n// a\n// b\n", "  "],
+    "lend": ["", " ", "\n", ",", ", ", ",\n", " // last\n", ",\n// end\n", "\n// end\n"],
+    "wsn1": [" ", "  ", "\n", " \n "],
+    "sep": ["\n", ";", " ;\n", "\n\n", "\n  // step\n", "; ", " \n"],
+    "cend": ["", " ", "\n", ",\n", ", // last\n", "\n\n", " \n "],
+}
 
 
 class Renderer:
-    """Mirror of PrattRender.pr: par(path)->extra layers, wn(path)->bool.  Paths are tuples, innermost
-    index first (as in Coq).  Produces the canonical text (identical to items_text of the Coq
-    rendering)."""
+    """Mirror of PrattRender.pr / items_text: par(path)->extra layers, wn(path)->bool.  Paths are
+    tuples, innermost index first (as in Coq).  pr() returns a list of strings and Gaps; text()
+    fills the gaps canonically (identical to items_text of the Coq rendering) or, given an rng,
+    with random layout admitted by the grammar."""
 
     def __init__(self, par=None, dflt=0, wn=None):
         self.par = par or {}
@@ -179,76 +203,132 @@ class Renderer:
     def extra(self, q):
         return self.par.get(q, self.dflt)
 
-    def wrap(self, m, q, c):
+    def wrap(self, m, q, c, in_lambda=False):
         n = (0 if m <= lvl(c) else 1) + (0 if c[0] == "spread" else self.extra(q))
-        return "(" * n + self.pr(q, c) + ")" * n
+        inner = self.pr(q, c, in_lambda and n == 0)
+        out = []
+        for _ in range(n):
+            out += ["(", Gap("opt", "")]
+        out += inner
+        for _ in range(n):
+            out += [Gap("opt", ""), ")"]
+        return out
 
-    def pr(self, p, t):
+    def pr(self, p, t, in_lambda=False):
         k = t[0]
         w = self.wrap
         if k == "num":
-            return "%d" % t[1]
+            return ["%d" % t[1]]
         if k == "str":
-            return '"%s"' % t[1]
+            return ['"%s"' % t[1]]
         if k == "bool":
-            return "true" if t[1] else "false"
+            return ["true" if t[1] else "false"]
         if k == "null":
-            return "null"
+            return ["null"]
         if k in ("id", "builtin"):
-            return t[1]
+            return [t[1]]
         if k == "inref":
-            return "#" + t[1]
+            return ["#" + t[1]]
         if k == "list":
-            return "[" + ", ".join(w(0, (i,) + p, e) for i, e in enumerate(t[1])) + "]"
-        if k == "rec":
-            out = []
-            for i, (kind, key, val) in enumerate(t[1]):
-                if kind == "static":
-                    out.append('"%s": %s' % (key, w(0, (2 * i + 1,) + p, val)))
-                elif kind == "dyn":
-                    out.append("[%s]: %s" % (w(0, (2 * i,) + p, key), w(0, (2 * i + 1,) + p, val)))
-                elif kind == "short":
-                    out.append(key)
-                else:
-                    out.append(w(0, (2 * i,) + p, key))
-            return "{" + ", ".join(out) + "}"
-        if k == "lam":
-            args = ", ".join({"req": "%s", "opt": "%s?", "rest": "...%s"}[a] % n for a, n in t[1])
-            return "(%s) => %s" % (args, w(0, (0,) + p, t[2]))
-        if k == "cond":
-            return "if %s then %s else %s" % (w(0, (0,) + p, t[1]), w(0, (1,) + p, t[2]), w(0, (2,) + p, t[3]))
-        if k == "do":
-            s = "do {\n"
+            if not t[1]:
+                return ["[]"]
+            out = ["[", Gap("lst", "")]
             for i, e in enumerate(t[1]):
-                s += "  " + w(0, (i,) + p, e) + "\n"
-            s += "  return " + w(0, (len(t[1]),) + p, t[2]) + "\n}"
-            return s
+                if i:
+                    out += [Gap("ws0", ""), ",", Gap("lst", " ")]
+                out += w(0, (i,) + p, e)
+            return out + [Gap("lend", ""), "]"]
+        if k == "rec":
+            if not t[1]:
+                return ["{}"]
+            out = ["{", Gap("lst", "")]
+            for i, (kind, key, val) in enumerate(t[1]):
+                if i:
+                    out += [Gap("ws0", ""), ",", Gap("lst", " ")]
+                if kind == "static":
+                    out += ['"%s"' % key, Gap("ws0", ""), ":", Gap("opt", " ")] + w(0, (2 * i + 1,) + p, val)
+                elif kind == "dyn":
+                    out += (["[", Gap("ws0", "")] + w(0, (2 * i,) + p, key) + [Gap("ws0", ""), "]", Gap("ws0", ""), ":",
+                                                                               Gap("opt", " ")]
+                            + w(0, (2 * i + 1,) + p, val))
+                elif kind == "short":
+                    out += [key]
+                else:
+                    out += w(0, (2 * i,) + p, key)
+            return out + [Gap("lend", ""), "}"]
+        if k == "lam":
+            out = ["(", Gap("opt", "")]
+            for i, (a, n) in enumerate(t[1]):
+                if i:
+                    out += [Gap("ws0", ""), ",", Gap("opt", " ")]
+                out += [{"req": "%s", "opt": "%s?", "rest": "...%s"}[a] % n]
+            out += [Gap("cend" if t[1] else "opt", ""), ")", Gap("ws0", " "), "=>", Gap("opt", " ")]
+            return out + w(0, (0,) + p, t[2], True)
+        if k == "cond":
+            return (["if", Gap("ws1", " ")] + w(0, (0,) + p, t[1]) + [Gap("req", " "), "then", Gap("req", " ")]
+                    + w(0, (1,) + p, t[2]) + [Gap("req", " "), "else", Gap("req", " ")] + w(0, (2,) + p, t[3]))
+        if k == "do":
+            out = ["do", Gap("wsn1", " "), "{", Gap("sep0", "\n")]
+            for i, e in enumerate(t[1]):
+                out += [Gap("ws0", "  ")] + w(0, (i,) + p, e) + [Gap("sep", "\n")]
+            out += [Gap("ws0", "  "), "return", Gap("ws1", " ")] + w(0, (len(t[1]),) + p, t[2])
+            return out + [Gap("wsn0", "\n"), "}"]
         if k == "assign":
-            return "%s = %s" % (t[1], w(0, (0,) + p, t[2]))
+            return [t[1], Gap("ws0", " "), "=", Gap("ws0", " ")] + w(0, (0,) + p, t[2])
         if k == "call":
-            return w(P_PRE + 1, (0,) + p, t[1]) + "(" + ", ".join(
-                w(0, (i + 1,) + p, a) for i, a in enumerate(t[2])) + ")"
+            out = w(P_PRE + 1, (0,) + p, t[1], in_lambda) + ["(", Gap("opt", "")]
+            for i, a in enumerate(t[2]):
+                if i:
+                    out += [Gap("ws0", ""), ",", Gap("opt", " ")]
+                out += w(0, (i + 1,) + p, a)
+            return out + [Gap("cend" if t[2] else "opt", ""), ")"]
         if k == "idx":
-            return w(P_PRE + 1, (0,) + p, t[1]) + "[" + w(0, (1,) + p, t[2]) + "]"
+            return w(P_PRE + 1, (0,) + p, t[1], in_lambda) + ["[", Gap("nl0", "")] + w(0, (1,) + p, t[2]) + [
+                Gap("nl0", ""), "]"]
         if k == "dot":
-            return w(P_PRE + 1, (0,) + p, t[1]) + "." + t[2]
+            return w(P_PRE + 1, (0,) + p, t[1], in_lambda) + ["." + t[2]]
         if k == "bin":
             o = t[1]
-            return w(need_l(o), (0,) + p, t[2]) + " " + BIN_TEXT[o] + " " + w(need_r(o), (1,) + p, t[3])
+            if o in WORD_OPS:
+                mid = [Gap("req", " "), BIN_TEXT[o], Gap("ws1", " ")]
+            else:
+                mid = [Gap("opt", " "), BIN_TEXT[o], Gap("opt", " ")]
+            return w(need_l(o), (0,) + p, t[2], in_lambda) + mid + w(need_r(o), (1,) + p, t[3], in_lambda)
         if k == "un":
             if t[1] == "Negate":
-                op = "-"
+                op = ["-"]
+            elif p in self.wn:
+                op = ["not", Gap("ws1", " ")]
             else:
-                op = "not " if p in self.wn else "!"
-            return op + w(P_PRE, (0,) + p, t[2])
+                op = ["!"]
+            return op + w(P_PRE, (0,) + p, t[2], in_lambda)
         if k == "fact":
-            return w(P_PRE + 1, (0,) + p, t[1]) + "!"
+            return w(P_PRE + 1, (0,) + p, t[1], in_lambda) + ["!"]
         if k == "spread":
-            return "..." + w(0, (0,) + p, t[1])
+            return ["..."] + w(0, (0,) + p, t[1])
         raise ValueError(k)
 
-    def render(self, t):
+    def parts(self, t):
         return self.wrap(0, (), t)
+
+    def render(self, t):
+        return fill(self.parts(t), None)
+
+
+EXTRA_FILL = {"sep0": ["\n", " ", "\n\n", "\n  // first\n", " \n  "], "wsn0": ["\n", " ", "\n\n", ""]}
+
+
+def fill(parts, rng, keep_num=2, keep_den=3):
+    out = []
+    for x in parts:
+        if isinstance(x, Gap):
+            if rng is None or rng.chance(keep_num, keep_den):
+                out.append(x.canon)
+            else:
+                out.append(rng.choice(FILL.get(x.kind) or EXTRA_FILL[x.kind]))
+        else:
+            out.append(x)
+    return "".join(out)
 
 
 def children(t):
@@ -276,7 +356,9 @@ def children(t):
         return [(0, t[1])] + [(i + 1, a) for i, a in enumerate(t[2])]
     if k == "idx":
         return [(0, t[1]), (1, t[2])]
-    if k in ("dot", "un", "fact", "spread"):
+    if k == "un":
+        return [(0, t[2])]
+    if k in ("dot", "fact", "spread"):
         return [(0, t[1])]
     if k == "bin":
         return [(0, t[2]), (1, t[3])]
@@ -309,6 +391,22 @@ def exposed_ops(t, par, p):
     return out
 
 
+def starts_with_minus(t, par, p):
+    k = t[0]
+    if k == "un":
+        return t[1] == "Negate"
+    if k == "bin":
+        c, need = t[2], need_l(t[1])
+    elif k in ("call", "idx", "dot", "fact"):
+        c, need = t[1], P_PRE + 1
+    else:
+        return False
+    q = (0,) + p
+    if need <= lvl(c) and par.get(q, 0) == 0:
+        return starts_with_minus(c, par, q)
+    return False
+
+
 def text_level_parens(t):
     """Extra parenthesis layers that the TEXT grammar needs beyond the Pratt levels:
        * lambda / conditional / assignment are open to the right (their last expression swallows
@@ -324,6 +422,14 @@ def text_level_parens(t):
                     continue
                 if c[0] in OPEN_ENDED:
                     par[(i,) + p] = 1
+    # a do-block statement that starts with `-` would continue the previous statement
+    # (`a NEWLINE - b` is one expression): parenthesised
+    for p, n in nodes(t):
+        if n[0] == "do":
+            for i, st in enumerate(n[1]):
+                q = (i,) + p
+                if i >= 1 and par.get(q, 0) == 0 and starts_with_minus(st, par, q):
+                    par[q] = 1
     for p, n in nodes(t):
         if n[0] == "lam":
             q = (0,) + p
